@@ -611,3 +611,92 @@ def gen_tables():
         'territories': terr or ['PL'],
         'names': names or ['polish'],
     }
+
+# ------------------------------------------------------------------ end to end: the real command-line tool on real files vs the model
+
+LANGUAGE_TAGS = {'duplicate-header-field-language', 'no-language-header-field', 'invalid-language', 'encoding-in-language-header-field',
+                 'language-variant-does-not-affect-translation', 'language-disparity', 'duplicate-header-field-x-poedit',
+                 'unknown-poedit-language', 'unable-to-determine-language'}
+
+E2E_PATHS = ['x.po', 'pl.po', 'de.po', 'pl_PL.po', 'pol.po', 'xx.po', 'pl.UTF-8.po', 'de@euro.po', 'sr@latin.po', 'po/pl.po', './po/de.po', 'x.pot', 'po/pl.pot',
+             'de/LC_MESSAGES/x.po', 'de_DE.UTF-8/LC_MESSAGES/foo.po', 'de_AT@euro/LC_MESSAGES/foo.po', 'pol/LC_MESSAGES/foo.po', 'xx/LC_MESSAGES/pl.po',
+             'LC_MESSAGES/pl.po', 'pl/./LC_MESSAGES/x.po', 'pl/zz/../LC_MESSAGES/x.po', 'pl//LC_MESSAGES//x.po', 'pl/LC_MESSAGES/de/LC_MESSAGES/x.po',
+             'pl/LC_MESSAGES/de.po', 'translations/source/da/dictionaries/pl_PL.po', 'translations/source/pt-BR/dictionaries/de.po',
+             'l10n/sr@latin/x/pl.po', 'x/None/pl.po', 'x/pl_PL/de.po', 'x/pl-PL/de.po', 'PL.po', 'pl.po.po', 'pl..po']
+E2E_METAS = [[], [''], ['pl'], ['de'], ['pl_PL'], ['pt_BR'], ['da'], ['sr@latin'], ['de@euro'], ['pl.UTF-8'], ['de_DE.ISO-8859-15@euro'], ['pol'], ['tlh'], ['xx'],
+             ['pl_XX'], ['pl_pl'], ['Polish'], ['German'], ['Klingon'], ['pl', 'pl'], ['pl', 'de'], ['xx', 'xx'], ['pl-PL']]
+E2E_PLS = [[], [], [], ['Polish'], ['German'], ['Klingon'], ['Polish', 'German'], ['Polish', 'Polish']]
+E2E_PCS = [[], [], ['POLAND'], ['POLAND', 'GERMANY']]
+E2E_OPTS = [None, None, None, 'pl', 'de_DE', 'pol', 'de_AT.UTF-8@euro']
+
+def e2e_cases(rng, n):
+    out = [(p.endswith('.pot'), None, p, m, [], []) for p, m in [('x/None/pl.po', ['xx']), ('translations/source/da/dictionaries/pl_PL.po', ['da']),
+                                                                  ('pl/LC_MESSAGES/de/LC_MESSAGES/x.po', []), ('pl.UTF-8.po', []), ('x.po', [])]]
+    while len(out) < n:
+        p = rng.choice(E2E_PATHS)
+        out.append((p.endswith('.pot'), rng.choice(E2E_OPTS), p, list(rng.choice(E2E_METAS)), list(rng.choice(E2E_PLS)), list(rng.choice(E2E_PCS))))
+    return out
+
+def po_text(metas, pls, pcs):
+    lines = ['msgid ""', 'msgstr ""', '"Project-Id-Version: verif 1\\n"', '"Content-Type: text/plain; charset=UTF-8\\n"']
+    for m in metas: lines.append('"Language: %s\\n"' % m)
+    for m in pls: lines.append('"X-Poedit-Language: %s\\n"' % m)
+    for m in pcs: lines.append('"X-Poedit-Country: %s\\n"' % m)
+    lines += ['', 'msgid "a"', 'msgstr "b"', '']
+    return '\n'.join(lines)
+
+def run_e2e(cases, workers=4):
+    """run the real CLI (subprocess) on each case in its own directory; returns the list of language-tag lines `name extras…` per case"""
+    import e2e_common as E
+    res = []
+    with E.Workdir() as wd:
+        jobs = []
+        for i, (template, opt, path, metas, pls, pcs) in enumerate(cases):
+            wd.write(os.path.join(f'c{i}', os.path.normpath(path)), po_text(metas, pls, pcs))
+            args = (['--language=' + opt] if opt is not None else []) + [path]
+            jobs.append((args, os.path.join(wd.path, f'c{i}')))
+        def one(job):
+            args, cwd = job
+            return E.run_cli(args, cwd)
+        outs = E.parallel(one, jobs, workers=workers)
+    for (template, opt, path, metas, pls, pcs), o in zip(cases, outs):
+        if o['rc'] not in (0,) or o['stderr'].strip():
+            res.append('err rc=%s %s' % (o['rc'], o['stderr'].strip().splitlines()[-1][:120] if o['stderr'].strip() else ''))
+            continue
+        got = []
+        for line in o['stdout'].splitlines():
+            parts = line.split(': ', 2)
+            if len(parts) == 3:
+                words = parts[2].split(' ')
+                if words[0] in LANGUAGE_TAGS:
+                    got.append(parts[2])
+        res.append('ok ' + ';'.join(got))
+    return res
+
+import re as _re
+_SAFE = _re.compile(r'\A[A-Za-z0-9_.!<>=-]+\Z')     # tags._is_safe, as documented there
+
+def render_model_line(line):
+    """`ok lang=… tags=name(x:hex,…);…` → `ok name extra extra;…` (the text `tags.Tag.format` prints for unproblematic characters)"""
+    if not line.startswith('ok '):
+        return line
+    body = line.split(' tags=', 1)[1] if ' tags=' in line else ''
+    out = []
+    for t in (body.split(';') if body else []):
+        name, _, rest = t.partition('(')
+        extras = []
+        for x in rest.rstrip(')').split(','):
+            if not x:
+                continue
+            kind, _, h = x.partition(':')
+            v = unhex(h)
+            if kind == 'S':
+                extras.append(v)                      # tags.safestr: verbatim
+            elif v == '':
+                extras.append('(empty string)')
+            elif _SAFE.match(v):
+                extras.append(v)
+            else:
+                extras.append(repr(v))
+        out.append(' '.join([name] + extras))
+    return 'ok ' + ';'.join(out)
